@@ -14,6 +14,13 @@ for _f in sorted(_glob.glob(os.path.join(os.path.dirname(__file__), "props_*.py"
 def main(pid, path):
     r = json.load(open(path))
     fam = r["family"]
+    if fam == "suitewire":
+        from . import writer
+        v, cov, _ = writer.suite_wire(pid, "quick")
+        for x in v:
+            print("VIOLATION property=%s replay=%s" % (pid, x))
+        print("replay: repository test suite re-run under the wire tap: %d rejected connections" % len(v))
+        return 1 if v else 0
     core.build_driver()
     name = "replay-%s" % pid
     core.rundir(name)
